@@ -55,7 +55,7 @@ class ListBase(Node, list):
 
 class TupleBase(NodeMixin, tuple):
     def __new__(cls, name):
-        return tuple.__new__(cls, (name,))
+        return tuple.__new__(cls, (name, "payload"))  # a record with two fields (len != 1: a lone node is not a valid %-format argument tuple)
 
     def __init__(self, name):
         self.name = name
